@@ -110,6 +110,20 @@ var c06directed = func() []data.Path {
 			ps = append(ps, data.Path{Steps: []data.Step{{Kind: data.SField, Name: f}, {Kind: data.SSlice, Hi: lo, HasHi: true}}})
 		}
 		ps = append(ps, data.Path{Steps: []data.Step{{Kind: data.SField, Name: f}, {Kind: data.SSlice, Hi: n}}})
+		// the same bounds held in variables of every integer kind (a bound is an integer, whatever its width)
+		for ki, kind := range data.BoundKinds {
+			for lo := 0; lo <= n+1 && lo <= 5; lo++ {
+				for hi := lo; hi <= n+1 && hi <= 6; hi++ {
+					if (lo+hi+ki)%2 == 1 && lo != hi-1 {
+						continue // thin out; adjacent bounds always
+					}
+					lr, hr := fmt.Sprintf("b%s%d", kind, lo), fmt.Sprintf("b%s%d", kind, hi)
+					ps = append(ps, data.Path{Steps: []data.Step{{Kind: data.SField, Name: f}, {Kind: data.SSlice, Lo: lo, Hi: hi, HasLo: true, HasHi: true, LoRef: lr, HiRef: hr}}})
+					ps = append(ps, data.Path{Steps: []data.Step{{Kind: data.SField, Name: f}, {Kind: data.SSlice, Lo: lo, Hi: n, HasLo: true, LoRef: lr}}})
+					ps = append(ps, data.Path{Steps: []data.Step{{Kind: data.SField, Name: f}, {Kind: data.SSlice, Hi: hi, HasHi: true, HiRef: hr}}})
+				}
+			}
+		}
 	}
 	return ps
 }()
